@@ -525,6 +525,10 @@ impl Model {
                             it.current = Some(key.clone());
                             Ok(Some(key))
                         } else {
+                            // an exhausted iterator has walked back up to where it started: the
+                            // key it points at is the starting key again (the documentation does
+                            // not say; the model follows the implementation here)
+                            it.current = None;
                             Ok(None)
                         }
                     }
